@@ -20,9 +20,7 @@ class ReachLeg(T.TravLeg):
     quick_n = 150
     thorough_n = 4000
 
-    def oracle(self, case, obs):
-        if obs is None:
-            return []
+    def phase_oracle(self, case, obs):
         snap = obs["snap"]
         if not obs["unchanged"]:
             return ["a traversal changed the graph"]
